@@ -332,7 +332,7 @@ fn run_close(m: &mut M, conds: &[Cond], all: bool, cap: u32) -> (bool, u32, bool
         it.set(k + 1);
         let holds = if conds.is_empty() { false } else if all { conds.iter().all(|c| eval_cond(m, c)) } else { conds.iter().any(|c| eval_cond(m, c)) };
         // the cap bounds iterations and model growth (non-terminating theories)
-        let cp = k >= cap || alloc_total(m) > 400;
+        let cp = k >= cap || alloc_total(m) > 160;
         if cp && !holds { capped.set(true); }
         cond_event(m, k, holds, cp && !holds);
         holds || cp
@@ -487,6 +487,15 @@ def compile_theory(th, hooks=False, mode="module", rtlib=None, rustc=("rustc",),
     name = th["name"]
     key = sha(compiler_id(), text, name, str(hooks), mode, tag, " ".join(extra_rustc), DRIVER_MAIN)[:24]
     d = os.path.join(CACHE, key[:2], key)
+    os.makedirs(os.path.join(CACHE, key[:2]), exist_ok=True)
+    import fcntl
+    with open(d + ".lock", "w") as lockf:
+        # concurrent checks share the cache: serialise work on one key
+        fcntl.flock(lockf, fcntl.LOCK_EX)
+        return _compile_theory_locked(th, text, name, key, d, hooks, mode, rtlib, rustc, extra_rustc)
+
+
+def _compile_theory_locked(th, text, name, key, d, hooks, mode, rtlib, rustc, extra_rustc):
     meta_p = os.path.join(d, "meta.json")
     if os.path.exists(meta_p):
         try:
